@@ -610,7 +610,7 @@ func main() {
 
 	lap("oracle built and run")
 	cw := vh.NewCases(a, "From Coq Require Import List ZArith.\nFrom Verif Require Import C06.Model.\nImport ListNotations.", "case", "mismatches", perShard)
-	wd := vh.NewWatchdog(rep, 60*time.Second)
+	wd := vh.NewWatchdog(rep, 180*time.Second)
 	skipped, nCases := 0, 0
 	totalOps := map[string]int{}
 	for idx, p := range progs {
